@@ -393,15 +393,27 @@ def fam_conv_add(rng):
 
 
 def fam_add_softmax(rng):
-    for axis, mask_shape, safe in itertools.product([-1, 2, 1, 0], [(2, 3, 4), (1, 1, 4), (3, 1), ()], [False, True]):
+    for axis, mask_shape, safe, masked in itertools.product([-1, 2, 1, 0], [(2, 3, 4), (1, 1, 4), (3, 1), ()], [False, True], [False, True]):
         g = new_builder(rng)
         qk = data_input(g, rng, (2, 3, 4), symbolic=[rng.bool(), False, False])
-        mask = data_input(g, rng, mask_shape) if rng.bool() else g.add_init("f32", rng.array("f32", mask_shape))
+        if masked:
+            # An attention mask that blanks out whole lanes (every entry -inf): softmax
+            # yields NaN there, which the "safe softmax" tail turns into 0.
+            if len(mask_shape) == 0:
+                continue
+            m = rng.array("f32", mask_shape)
+            m = m.copy()
+            m[(0,) * (len(mask_shape) - 1)] = -np.inf      # first lane along the last axis
+            if mask_shape == (3, 1):
+                m[1, 0] = -np.inf
+            mask = g.add_init("f32", m)
+        else:
+            mask = data_input(g, rng, mask_shape) if rng.bool() else g.add_init("f32", rng.array("f32", mask_shape))
         y = softmax(g, add(g, qk, mask), axis)
         if safe:
             isn = g.node("IsNaN", [y], np.isnan)
             y = g.node("Where", [isn, g.add_init("f32", f32(0.0)), y], lambda c, a, b: np.where(c, a, b))
-        yield g, {"axis": axis, "mask_shape": list(mask_shape), "safe": safe}, [y]
+        yield g, {"axis": axis, "mask_shape": list(mask_shape), "safe": safe, "masked_lanes": masked}, [y]
 
 
 def fam_transpose_consumers(rng):
